@@ -127,6 +127,45 @@ def _split(n, count, ending="close", target="out.records", suffix_length=None, s
     return None
 
 
+def c17_split_target(target="jsonfile://out.json"):
+    """a split target given as adapter URI / bare file name, relative to the working directory"""
+    cwd = os.getcwd()
+    with tempfile.TemporaryDirectory() as td:
+        os.chdir(td)
+        try:
+            from flow.record import RecordReader, RecordWriter
+
+            D = _desc()
+            os.makedirs("sub", exist_ok=True)
+            w = RecordWriter("split+" + target + "?count=2" if "://" in target else "split://" + target + "?count=2")
+            for i in range(5):
+                w.write(D(n=i, s=f"r{i}", _generated=GEN))
+            w.close()
+            scheme = target.split("://")[0] + "://" if "://" in target else ""
+            files = sorted(os.path.join(r, f) for r, _, fs in os.walk(".") for f in fs)
+            allr, bad = [], None
+            for p in sorted(files, key=lambda p_: (int(([c for c in os.path.basename(p_).split(".") if c.isdigit()] or ["0"])[-1]), p_)):
+                try:
+                    with RecordReader(scheme + p) as rd:
+                        rs = [r.s for r in rd]
+                except Exception as e:
+                    if os.path.getsize(p) == 0:
+                        continue  # (the known empty trailing part)
+                    bad = f"part {p} is not readable on its own: {type(e).__name__}: {e}"
+                    break
+                if len(rs) > 2:
+                    bad = f"part {p} holds {len(rs)} records, the limit is 2 (files: {files})"
+                    break
+                allr += rs
+            if not bad and allr != [f"r{i}" for i in range(5)]:
+                bad = f"the parts hold {allr} (files: {files})"
+        except Exception as e:
+            bad = f"raised {type(e).__name__}: {e}"
+        finally:
+            os.chdir(cwd)
+    return {"violates": bool(bad), "detail": bad}
+
+
 def c17_split(n=3, count=2, ending="close"):
     try:
         bad = _split(n, count, ending)
@@ -267,4 +306,4 @@ def c17_sweep(seed=0, n=60):
     return {"violates": False, "cases": cases}
 
 
-CALLS = {"c17_template": c17_template, "c17_history": c17_history, "c17_split": c17_split, "c17_rotate": c17_rotate, "c17_sweep": c17_sweep}
+CALLS = {"c17_split_target": c17_split_target, "c17_template": c17_template, "c17_history": c17_history, "c17_split": c17_split, "c17_rotate": c17_rotate, "c17_sweep": c17_sweep}
